@@ -147,7 +147,7 @@ func Alphabet(core bool) []refsem.Step {
 		has(gripql.Eq("m.k", "v")), has(gripql.Not(gripql.Eq("n", 1.0))), has(gripql.And(gripql.Gt("n", 0.0), gripql.Lt("n", 2.0))))
 	a = append(a, st("as", "m2"), st("select", "m1", "m2"), st("fields", "n"), st("fields", "-n"),
 		refsem.Step{Op: "render", Tmpl: map[string]any{"a": "_gid", "b": "n"}}, refsem.Step{Op: "render", Tmpl: []any{"$m1._gid", "_label"}},
-		st("unwind", "t"), st("distinct", "s"), st("distinct", "$m1._gid"),
+		st("unwind", "t"), st("distinct", "s"), st("distinct", "n"), st("distinct", "$m1._gid"), // n: the number 1 and the text "1" are different values
 		refsem.Step{Op: "limit", A: 0}, refsem.Step{Op: "limit", A: 2}, refsem.Step{Op: "skip", A: 1},
 		refsem.Step{Op: "range", A: 0, B: -1}, refsem.Step{Op: "range", A: 1, B: 1})
 	return a
